@@ -33,6 +33,9 @@ inductive W where
   | d (sess : Str) (t : Nat)
   | m (msgs : List (Str × Nat))
   | c (sess : Str)
+  | o
+  | w (stream : Nat) (sess : Str) (t : Nat)
+  | q (stream : Nat)
 
 def parseST (a b : String) : Option (Str × Nat) := do
   let s ← fromHex a
@@ -47,6 +50,10 @@ def parseW (op : String) : Option W :=
   | ["x", a] => (fromHex a).map .x
   | ["d", a, b] => (parseST a b).map fun p => .d p.1 p.2
   | ["c", a] => (fromHex a).map .c
+  | ["o"] => some .o
+  | ["q", k] => k.toNat?.map .q
+  | ["w", k, a, b] => do let k ← k.toNat?; let p ← parseST a b; pure (.w k p.1 p.2)
+  | ["w", k, a, b, size] => do let k ← k.toNat?; let _ ← size.toNat?; let p ← parseST a b; pure (.w k p.1 p.2)
   | "m" :: _ =>
     (((op.drop 2).toString.splitOn "+").mapM (fun (m : String) => match m.splitOn ":" with
       | [a, b] => parseST a b
@@ -79,6 +86,7 @@ structure Acc where
   ops   : List Op := []                    -- the history in model terms (for wf / the spec)
   res   : List String := []
   isub  : Nat := 0
+  nopen : Nat := 0
   idsOk : Bool := true                     -- every returned id had the issued form `<session>-<type>-<digits>`
 
 /-- run the wire history through the model's `step`; `implRes` = the implementation's per-op results (source of suffixes) -/
@@ -111,6 +119,14 @@ def runW (ws : List W) (implRes : List String) : Acc := Id.run do
       | none => a := { a with res := a.res ++ ["."] }
     | .x id =>
       a := { a with r := step a.r (.unsubRaw id), ops := a.ops ++ [.unsubRaw id], res := a.res ++ ["."] }
+    | .o => a := { a with res := a.res ++ ["."], nopen := a.nopen + 1 }
+    | .q _ => a := { a with res := a.res ++ ["."] }
+    | .w k sess t =>
+      -- a message on an open stream is a delivery at that moment (on a stream that was never opened: nothing)
+      if k < a.nopen then
+        let r' := step a.r (.deliver sess t)
+        a := { a with r := r', ops := a.ops ++ [.deliver sess t], res := a.res ++ [showNats (lastRecv r')] }
+      else a := { a with res := a.res ++ ["-"] }
     | .c sess =>
       a := { a with r := step a.r (.close sess), ops := a.ops ++ [.close sess], res := a.res ++ ["."] }
     | .d sess t =>
@@ -135,10 +151,13 @@ def showSt (st : St) : String := joinOr ((st.map showEntry).mergeSort (· ≤ ·
 def implDeliveries (ws : List W) (implRes : List String) : Option (List (List Nat)) := do
   let mut out : List (List Nat) := []
   let mut i := 0
+  let mut nopen := 0
   for w in ws do
+    if (match w with | .o => true | _ => false) then nopen := nopen + 1
     let r ← implRes[i]?
     match w with
     | .d _ _ => out := out ++ [← natList r]
+    | .w k _ _ => if k < nopen then out := out ++ [← natList r] else pure ()
     | .m _ =>
       for p in r.splitOn "+" do
         out := out ++ [← natList p]
